@@ -5,7 +5,9 @@ interleaving of up to 16 channels to this.
 -/
 import Midi.Proofs.Polling
 import Midi.Spec.Grammar
+import Midi.Proofs.Sentences
 set_option linter.unusedSimpArgs false
+set_option linter.unusedVariables false
 namespace Midi.Props.C12
 open Midi Midi.Spec
 
@@ -20,6 +22,30 @@ def ChanWF (c : PChan) : Prop :=
 /-- time of the last message of a schedule -/
 def lastTime (sched : List Timed) : Nat := (sched.getLast?.map (·.now)).getD 0
 
+/-! helper lemmas for `encode_roundtrip` -/
+
+theorem index_of_chainTail (sched : List Timed) (hc : Sent.chainTail sched) :
+    ∀ i (h : i + 1 < sched.length), sched[i + 1].inner = true → sched[i + 1].t0 = sched[i].now := by
+  cases sched with
+  | nil => intro i h; simp at h
+  | cons m ms =>
+    change Sent.chainFrom m.now ms at hc
+    induction ms generalizing m with
+    | nil => intro i h; simp at h
+    | cons m' ms ih =>
+      intro i h hin
+      cases i with
+      | zero => exact hc.1 hin
+      | succ j => exact ih m' hc.2 j (by simp at h ⊢; omega) hin
+
+theorem len3 {l : List Nat} (h : l.length = 3) : ∃ a b c, l = [a, b, c] := by
+  match l, h with
+  | [a, b, c], _ => exact ⟨a, b, c, rfl⟩
+theorem len4 {l : List Nat} (h : l.length = 4) : ∃ a b c d, l = [a, b, c, d] := by
+  match l, h with
+  | [a, b, c, d], _ => exact ⟨a, b, c, d, rfl⟩
+
+
 /-- MAIN THEOREM (full statement): from ANY well-formed prior state, for every non-empty sentence of the documented
     grammar on a channel and every good schedule of it (arbitrary gaps with polls — early inside two-message units,
     unrestricted elsewhere — and non-contributing traffic; monotone time), followed by one poll at least `timeout`
@@ -29,7 +55,17 @@ theorem sentences (ch timeout t tEnd : Nat) (c0 : PChan) (hto : c0.timeout = tim
     (bs : List Block) (hne : bs ≠ []) (hb : ∀ b ∈ bs, b.Valid) (sched : List Timed) (hg : Good timeout t bs sched)
     (hend : lastTime sched + timeout ≤ tEnd) :
     reports (c0.evs ch (schedEvents sched ++ [.poll tEnd])).2 = flush ch c0 ++ intended ch bs := by
-  sorry
+  obtain ⟨⟨hmap, hidx⟩, _, hgaps⟩ := hg
+  cases bs with
+  | nil => exact absurd rfl hne
+  | cons b bs' =>
+    have hK := Sent.blocks_tail ch timeout tEnd bs' (fun b hb' => hb b (List.mem_cons_of_mem _ hb'))
+    have hend' : Sent.endTime 0 sched + timeout ≤ tEnd := by
+      rw [Sent.endTime_eq]; exact hend
+    have := Sent.block_run ch timeout tEnd b (hb b List.mem_cons_self) _ _ hK c0 hto 0 sched
+      (by rw [List.flatMap_cons] at hmap; exact hmap) (Sent.chainTail_of_index sched hidx) hgaps hend'
+    rw [intended, List.flatMap_cons]
+    exact this
 
 /-- Consequently: encoding any ParameterNumberMessage in either byte order, feeding it (at any non-decreasing times)
     and polling after the timeout reports exactly that message, preceded at most by the flush of a value still
@@ -41,6 +77,83 @@ theorem encode_roundtrip (timeout tEnd : Nat) (c0 : PChan) (hto : c0.timeout = t
     reports (c0.evs m.channel
       ((((specPNEncoding m order).filterMap id).zip times).map (fun p => PEv.cc p.1.d1 p.1.d2 p.2) ++ [.poll tEnd])).2
       = flush m.channel c0 ++ [m] := by
-  sorry
+  obtain ⟨ch, number, value, reg, is14, dt⟩ := m
+  obtain ⟨hch, hn, hv⟩ := hm
+  simp only at hch hn hv ⊢
+  cases is14 with
+  | false =>
+    simp only [Bool.false_eq_true, if_false] at hv
+    cases dt with
+    | dataEntry =>
+      simp only [specPNEncoding, List.filterMap_cons, id, List.filterMap_nil, List.length_cons, List.length_nil,
+        Bool.false_eq_true, if_false] at hlen ⊢
+      obtain ⟨t1, t2, t3, rfl⟩ := len3 hlen
+      simp at hmono hend
+      have := sentences ch timeout 0 tEnd c0 hto hwf [⟨reg, true, number, [.msbAlone value]⟩] (by simp)
+        (by simp [Block.Valid, unitsOk, VUnit.Valid, hn, hv])
+        [⟨[], if reg then 101 else 99, number / 128, t1, false, 0⟩, ⟨[], if reg then 100 else 98, number % 128, t2, false, 0⟩,
+         ⟨[], 6, value, t3, false, 0⟩]
+        ⟨⟨by simp [Block.shape, Block.selection, VUnit.msgs], index_of_chainTail _ (by simp [Sent.chainTail, Sent.chainFrom])⟩,
+          by simp [monotoneFrom]; omega, by simp [innerPollsEarly]⟩
+        (by simp [lastTime]; omega)
+      simpa [schedEvents, Timed.events, intended, Block.intended, intendedUnits] using this
+    | dataIncrement =>
+      simp only [specPNEncoding, List.filterMap_cons, id, List.filterMap_nil, List.length_cons, List.length_nil,
+        Bool.false_eq_true, if_false] at hlen ⊢
+      obtain ⟨t1, t2, t3, rfl⟩ := len3 hlen
+      simp at hmono hend
+      have := sentences ch timeout 0 tEnd c0 hto hwf [⟨reg, true, number, [.incDec true value]⟩] (by simp)
+        (by simp [Block.Valid, unitsOk, VUnit.Valid, hn, hv])
+        [⟨[], if reg then 101 else 99, number / 128, t1, false, 0⟩, ⟨[], if reg then 100 else 98, number % 128, t2, false, 0⟩,
+         ⟨[], 96, value, t3, false, 0⟩]
+        ⟨⟨by simp [Block.shape, Block.selection, VUnit.msgs], index_of_chainTail _ (by simp [Sent.chainTail, Sent.chainFrom])⟩,
+          by simp [monotoneFrom]; omega, by simp [innerPollsEarly]⟩
+        (by simp [lastTime]; omega)
+      simpa [schedEvents, Timed.events, intended, Block.intended, intendedUnits] using this
+    | dataDecrement =>
+      simp only [specPNEncoding, List.filterMap_cons, id, List.filterMap_nil, List.length_cons, List.length_nil,
+        Bool.false_eq_true, if_false] at hlen ⊢
+      obtain ⟨t1, t2, t3, rfl⟩ := len3 hlen
+      simp at hmono hend
+      have := sentences ch timeout 0 tEnd c0 hto hwf [⟨reg, true, number, [.incDec false value]⟩] (by simp)
+        (by simp [Block.Valid, unitsOk, VUnit.Valid, hn, hv])
+        [⟨[], if reg then 101 else 99, number / 128, t1, false, 0⟩, ⟨[], if reg then 100 else 98, number % 128, t2, false, 0⟩,
+         ⟨[], 97, value, t3, false, 0⟩]
+        ⟨⟨by simp [Block.shape, Block.selection, VUnit.msgs], index_of_chainTail _ (by simp [Sent.chainTail, Sent.chainFrom])⟩,
+          by simp [monotoneFrom]; omega, by simp [innerPollsEarly]⟩
+        (by simp [lastTime]; omega)
+      simpa [schedEvents, Timed.events, intended, Block.intended, intendedUnits] using this
+  | true =>
+    simp only [if_true] at hv
+    obtain ⟨hv, hdt⟩ := hv
+    subst hdt
+    have hval : 128 * (value / 128) + value % 128 = value := by omega
+    cases order with
+    | msbFirst =>
+      simp only [specPNEncoding, List.filterMap_cons, id, List.filterMap_nil, List.length_cons, List.length_nil,
+        if_true] at hlen ⊢
+      obtain ⟨t1, t2, t3, t4, rfl⟩ := len4 hlen
+      simp at hmono hend
+      have := sentences ch timeout 0 tEnd c0 hto hwf [⟨reg, true, number, [.msbLsb (value / 128) (value % 128)]⟩] (by simp)
+        (by simp [Block.Valid, unitsOk, VUnit.Valid, hn]; omega)
+        [⟨[], if reg then 101 else 99, number / 128, t1, false, 0⟩, ⟨[], if reg then 100 else 98, number % 128, t2, false, 0⟩,
+         ⟨[], 6, value / 128, t3, false, 0⟩, ⟨[], 38, value % 128, t4, true, t3⟩]
+        ⟨⟨by simp [Block.shape, Block.selection, VUnit.msgs], index_of_chainTail _ (by simp [Sent.chainTail, Sent.chainFrom])⟩,
+          by simp [monotoneFrom]; omega, by simp [innerPollsEarly]⟩
+        (by simp [lastTime]; omega)
+      simpa [schedEvents, Timed.events, intended, Block.intended, intendedUnits, hval] using this
+    | lsbFirst =>
+      simp only [specPNEncoding, List.filterMap_cons, id, List.filterMap_nil, List.length_cons, List.length_nil,
+        if_true] at hlen ⊢
+      obtain ⟨t1, t2, t3, t4, rfl⟩ := len4 hlen
+      simp at hmono hend
+      have := sentences ch timeout 0 tEnd c0 hto hwf [⟨reg, true, number, [.lsbMsb (value % 128) (value / 128)]⟩] (by simp)
+        (by simp [Block.Valid, unitsOk, VUnit.Valid, hn]; omega)
+        [⟨[], if reg then 101 else 99, number / 128, t1, false, 0⟩, ⟨[], if reg then 100 else 98, number % 128, t2, false, 0⟩,
+         ⟨[], 38, value % 128, t3, false, 0⟩, ⟨[], 6, value / 128, t4, true, t3⟩]
+        ⟨⟨by simp [Block.shape, Block.selection, VUnit.msgs], index_of_chainTail _ (by simp [Sent.chainTail, Sent.chainFrom])⟩,
+          by simp [monotoneFrom]; omega, by simp [innerPollsEarly]⟩
+        (by simp [lastTime]; omega)
+      simpa [schedEvents, Timed.events, intended, Block.intended, intendedUnits, hval] using this
 
 end Midi.Props.C12
